@@ -208,7 +208,22 @@ func genCase(t *rapid.T) Case {
 		c.Pool = append(c.Pool, *genPoolGeom(t))
 	}
 	nc := rapid.IntRange(30, 150).Draw(t, "ncalls")
+	// one mix in eight is a burst: 260-420 calls of two functions only (a counter or a
+	// stamp inside pooled state wraps after 256 uses of the same thing, not of anything)
+	var burst []string
+	if rapid.IntRange(0, 7).Draw(t, "burst") == 0 {
+		burst = []string{rapid.SampledFrom(inventory).Draw(t, "burstfn1"), rapid.SampledFrom(inventory).Draw(t, "burstfn2")}
+		nc = rapid.IntRange(260, 420).Draw(t, "nburst")
+	}
 	for i := 0; i < nc; i++ {
+		if burst != nil {
+			c.Calls = append(c.Calls, Call{
+				Fn: burst[rapid.IntRange(0, 1).Draw(t, "bfn")],
+				A:  rapid.IntRange(0, np-1).Draw(t, "a"),
+				B:  rapid.IntRange(0, np-1).Draw(t, "b"),
+			})
+			continue
+		}
 		c.Calls = append(c.Calls, Call{
 			Fn: rapid.SampledFrom(inventory).Draw(t, "fn"),
 			A:  rapid.IntRange(0, np-1).Draw(t, "a"),
